@@ -126,7 +126,7 @@ def marshalExpr : Expr → List Piece
   | .call fn args =>
     if isMethodName fn then
       (match args with
-       | [] => []          -- Go panics (index out of range): unmodelled
+       | [] => [.t (idT fn), .t (opT "("), .t (opT ")")]   -- no receiver (programmatic only): function style `f()`, outside `exprModelled`
        | recv :: rest =>
          goWrapRecv 7 recv (marshalExpr recv) ++ .t (opT ".") :: .t (idT fn) :: .t (opT "(") :: (marshalArgs 7 rest ++ [.t (opT ")")]))
     else .t (idT fn) :: .t (opT "(") :: (marshalArgs 7 args ++ [.t (opT ")")])
